@@ -1,4 +1,4 @@
-package c09
+package jgram
 
 // Shapes added by the checklist audit: long lists (more elements than any small fixed capacity: past 8, 16, 32,
 // 64) in every place where the tool appends to a slice or fills a table, and chains of types nested in each
